@@ -115,6 +115,18 @@ def run_point(ctx, prog, cls, point, tag, second=None, torn=0):
     if os.path.exists(ack):
         os.remove(ack)
     env = {}
+    before = None
+    if point and torn and point[0] in ('wal.close.flushed', 'wal.sync.flushed'):
+        # how much does the write(2) in flight add?  The same program is stopped just BEFORE that flush (same hit number of the
+        # site in front of it) and the newest log file measured; only bytes behind that mark may be missing after the stop
+        rc0, _ = child(ctx, d, pp, ack, cls, {'VERIF_DIE_AT': f"{point[0].replace('.flushed', '.pre')}:{point[1]}"})
+        wd0 = os.path.join(d, 'db', 'wal')
+        if rc0 == 137 and os.path.isdir(wd0):
+            fl0 = sorted(f for f in os.listdir(wd0) if f.endswith('.wal'))
+            before = (len(fl0), os.path.getsize(os.path.join(wd0, fl0[-1]))) if fl0 else (0, 0)
+        shutil.rmtree(os.path.join(d, 'db'), ignore_errors=True)
+        if os.path.exists(ack):
+            os.remove(ack)
     if point:
         env['VERIF_DIE_AT'] = f'{point[0]}:{point[1]}'
     rc, err = child(ctx, d, pp, ack, cls, env)
@@ -125,17 +137,23 @@ def run_point(ctx, prog, cls, point, tag, second=None, torn=0):
         if torn:
             # the stop hit the process inside the write(2) that had just been issued: its last bytes are missing
             wd = os.path.join(d, 'db', 'wal')
-            files = sorted(f for f in os.listdir(wd) if f.endswith('.wal') and os.path.getsize(os.path.join(wd, f)) > 0)
+            allf = sorted(f for f in os.listdir(wd) if f.endswith('.wal'))
+            files = sorted(f for f in allf if os.path.getsize(os.path.join(wd, f)) > 0)
+            # bytes of the newest file that were there before the write in flight (all of them if that is not known)
+            floor = 0
+            if before is not None and files:
+                floor = before[1] if (len(allf) == before[0] and allf[-1] == files[-1]) else os.path.getsize(os.path.join(wd, files[-1]))
+            info['in_flight_bytes'] = os.path.getsize(os.path.join(wd, files[-1])) - floor if files else 0
             if files and torn < 0:
                 # the write(2) ended exactly on a record boundary: the last -torn physical records are missing (a fragmented
                 # entry or a batch is then cut between two of its records)
                 fp = os.path.join(wd, files[-1])
                 offs = record_offsets(fp)
-                if len(offs) > -torn:
+                if len(offs) >= -torn and offs[torn] >= floor:
                     os.truncate(fp, offs[torn])
                     info['torn_applied'] = True
                     ev[-1]['torn'] = True
-            elif files and os.path.getsize(os.path.join(wd, files[-1])) > torn:
+            elif files and os.path.getsize(os.path.join(wd, files[-1])) - floor >= torn:
                 fp = os.path.join(wd, files[-1])
                 os.truncate(fp, os.path.getsize(fp) - torn)
                 info['torn_applied'] = True
@@ -195,7 +213,10 @@ def validate(ctx, runs, tag, cfg='TRACE_Durable.cfg'):
             rejected.append(i)
             live.remove(i)
     rounds = 0
-    while live and rounds < 8:
+    # every run starts with a reset event, so the runs in front of a rejected one are accepted for good: only the runs behind it
+    # are validated again (the number of rounds is the number of rejected runs + 1; capped, the rest is then reported as rejected
+    # by a last resort of one run per TLC call being too slow)
+    while live and rounds < 40:
         rounds += 1
         lines, owner = [], []
         for i in live:
@@ -211,7 +232,10 @@ def validate(ctx, runs, tag, cfg='TRACE_Durable.cfg'):
             raise Infra('trace validation rejected a batch but reported no position:\n' + out[-2000:])
         bad = owner[hw - 1]
         rejected.append(bad)
-        live.remove(bad)
+        live = live[live.index(bad) + 1:]
+    else:
+        if live:
+            raise Infra(f'{len(rejected)} runs rejected and {len(live)} still unjudged after 40 rounds of trace validation')
     return rejected
 
 
@@ -272,9 +296,26 @@ def enumerate_crashes(ctx, prop, progs, classes, cap, second_crash=False, cfg='T
     for (ev, info), job in zip(runs, jobs):
         if info.get('die') and not info.get('die_not_reached'):
             ctx.nontrivial.add((job[0], tuple(info['die']), info.get('torn', 0)))
+    # a property with an open finding that has its own trace configuration is validated against THAT configuration (conformance
+    # plus exactly the finding's outcome): instances of the finding then cost no validation rounds and cannot crowd out anything
+    # else; the finding itself is re-established from its witness on every run (replay_witnesses)
+    kcfgs = [k['pattern']['trace_cfg'] for k in open_findings(prop) if k.get('pattern', {}).get('trace_cfg')]
+    if cfg == 'TRACE_Durable.cfg' and kcfgs:
+        cfg = kcfgs[0]
     rejected = validate(ctx, runs, prop.lower(), cfg=cfg)
     ctx.traces += len(runs)
-    for i in rejected[:6]:
+    # instances of an open finding are recognised first (by the finding's own trace configuration), so that they cannot crowd out
+    # a different disagreement; of the others at most 6 are reproduced and reported
+    fresh, known_inst = list(rejected), []
+    for k in open_findings(prop):
+        kcfg = k.get('pattern', {}).get('trace_cfg')
+        if kcfg and kcfg != cfg and fresh:
+            still = set(validate(ctx, [runs[i] for i in fresh], f'{prop.lower()}-kf-{k["id"]}', cfg=kcfg))
+            known_inst += [i for n, i in enumerate(fresh) if n not in still]
+            fresh = [i for n, i in enumerate(fresh) if n in still]
+    ctx.notes['rejected_runs'] = ctx.notes.get('rejected_runs', 0) + len(rejected)
+    ctx.notes['of_which_instances_of_open_findings'] = ctx.notes.get('of_which_instances_of_open_findings', 0) + len(known_inst)
+    for i in known_inst[:2] + fresh[:6]:
         pi, prog, cls, pt, sec, torn = jobs[i]
         # reproduce: the same stop point twice more; background goroutines make outcomes vary, one repeat suffices
         again = 0
